@@ -64,16 +64,17 @@ inductive Class where
 
 /-! ### reading values -/
 
-def asciiBlank (c : Char) : Bool := c = ' ' || c = '\t' || c = '\n' || c = '\r' || c.toNat = 11 || c.toNat = 12
+def asciiBlank (c : Char) : Bool := c.toNat == 32 || (9 ≤ c.toNat && c.toNat ≤ 13)   -- space, \t \n \v \f \r
 
-def asciiLower (c : Char) : Char := if 'A' ≤ c ∧ c ≤ 'Z' then Char.ofNat (c.toNat + 32) else c
+def asciiLower (c : Char) : Char :=
+  if 65 ≤ c.toNat && c.toNat ≤ 90 then Char.ofNat (c.toNat + 32) else c
 
 def stripBlanks (l : List Char) : List Char :=
   ((l.dropWhile asciiBlank).reverse.dropWhile asciiBlank).reverse
 
 def isAscii (c : Char) : Bool := c.toNat < 128
-def isDigitC (c : Char) : Bool := '0' ≤ c ∧ c ≤ '9'
-def isLetter (c : Char) : Bool := ('a' ≤ c ∧ c ≤ 'z') || ('A' ≤ c ∧ c ≤ 'Z')
+def isDigitC (c : Char) : Bool := 48 ≤ c.toNat && c.toNat ≤ 57
+def isLetter (c : Char) : Bool := (97 ≤ c.toNat && c.toNat ≤ 122) || (65 ≤ c.toNat && c.toNat ≤ 90)
 
 def natOfDigits (l : List Char) : Nat := l.foldl (fun a c => a * 10 + (c.toNat - 48)) 0
 
@@ -81,9 +82,9 @@ def natOfDigits (l : List Char) : Nat := l.foldl (fun a c => a * 10 + (c.toNat -
 def decimalInt (l : List Char) : Option Int :=
   let body (r : List Char) : Option Nat := if r ≠ [] ∧ r.all isDigitC then some (natOfDigits r) else none
   match l with
-  | '+' :: r => (body r).map fun n => (n : Int)
-  | '-' :: r => (body r).map fun n => -(n : Int)
-  | r => (body r).map fun n => (n : Int)
+  | '+' :: r => (body r).map fun (n : Nat) => Int.ofNat n
+  | '-' :: r => (body r).map fun (n : Nat) => -Int.ofNat n
+  | r => (body r).map fun (n : Nat) => Int.ofNat n
 
 def two53 : Int := 9007199254740992
 def two63 : Int := 9223372036854775808
